@@ -30,6 +30,7 @@ LG   == Loc(M0, 4, <<Ln(G, 20, 1)>>, FALSE)
 LH   == Loc(M0, 5, <<Ln(H, 30, 1)>>, FALSE)
 LGF  == Loc(M0, 6, <<Ln(G, 21, 1), Ln(F, 11, 1)>>, FALSE)
 LU   == Loc(M0, 8, <<>>, FALSE)
+LF0  == Loc(M0, 9, <<Ln(F, 0, 0)>>, FALSE)                      \* f without a line number: the whole-function entry at line granularity
 
 \* chains, diamonds, recursion; cut the leaf, the root, the middle, everything
 Shapes == { << <<LH, LG, LF>>, <<LG, LF>> >>,                 \* chain f>g>h and f>g
@@ -45,8 +46,11 @@ Cfg0(g) == [gran |-> g, noinl |-> FALSE, si |-> 2, mean |-> FALSE, troot |-> <<>
 Grans == IF Tier = "quick" THEN {"functions"} ELSE {"functions", "lines", "files"}
 
 Profiles == { << Smp(sh[1], v[1], <<>>, <<>>), Smp(sh[2], v[2], <<>>, <<>>) >> : sh \in Shapes, v \in Vals }
+\* at line granularity an entry for "f, no line" coexists with the entries of f's lines
+LineZeroProfiles == { << Smp(<<LH, LF>>, v[1], <<>>, <<>>), Smp(<<LG, LF0>>, v[2], <<>>, <<>>) >> : v \in Vals }
+                    \cup { << Smp(<<LH, LF, LF0>>, v[1], <<>>, <<>>), Smp(<<LF0, LG>>, v[2], <<>>, <<>>) >> : v \in Vals }
 Cases == UNION { { [samples |-> pg[1], cfg |-> Cfg0(pg[2]), K |-> k] : k \in SUBSET AllEntries(pg[1], Cfg0(pg[2])) } :
-                   pg \in Profiles \X Grans }
+                   pg \in (Profiles \X Grans) \cup (LineZeroProfiles \X {"lines"}) }
 
 \* ------------------------------------------------------------- declarative
 Kept(c) == c.K
